@@ -329,7 +329,7 @@ def run_job(job, wid):
         log2 = os.path.join(WORK, "logs", h["name"].replace("::", "__") + ".playback.log")
         status, wall, peak = run_limited(kani_cmd([h], target_dir, True), HARNESS_DIR,
                                          base_env(build, " --cfg verif_nocover"),
-                                         log2, 2 * h["timeout_s"] + 300, max(16, h["mem_gb"]))
+                                         log2, 2 * h["timeout_s"] + 300, max(28, h["mem_gb"]))   # Kani's trace extraction needs far more memory than the verdict
         p2 = parse_kani_log(log2)
         r["playback"] = p2["playback"]
         r["playback_status"] = status
